@@ -27,6 +27,8 @@ def main():
     try:
         dst = os.path.join(scratch, "repo")
         shutil.copytree("/repo/crates", os.path.join(dst, "crates"), ignore=shutil.ignore_patterns("target"))
+        for top in ("Cargo.toml", "Cargo.lock"):          # the workspace manifest is part of what the units read (U-COREFLOAT)
+            shutil.copy(os.path.join("/repo", top), os.path.join(dst, top))
         for m in MUTANTS:
             if sel and not any(s in m["name"] for s in sel):
                 continue
